@@ -49,8 +49,8 @@ struct ApplyMagnitudeImpl;
 //
 // For integral types, this is simply the quotient.  For floating point types, the quotient gets
 // _rounded_ --- possibly away from zero, in which case the rounded quotient itself would overflow
-// when multiplied (e.g., `double`: `(max / 12) * 12` is infinite).  Pulling the bound back by one
-// part in 2^digits makes the bound itself safe to multiply.
+// when multiplied (e.g., `double`: `(max / 12) * 12` is infinite).  In that case (and only then), we
+// pull the bound back by one part in 2^digits, which makes the bound itself safe to multiply.
 template <typename T, bool IsFloatingPoint = std::is_floating_point<T>::value>
 struct ProductBound {
     static constexpr T compute(T limit, T mag_value) { return limit / mag_value; }
@@ -58,7 +58,20 @@ struct ProductBound {
 template <typename T>
 struct ProductBound<T, true> {
     static constexpr T compute(T limit, T mag_value) {
-        return (limit / mag_value) * (T{1} - std::numeric_limits<T>::epsilon());
+        // Scaling by a factor of at most 1 never passes the limit.  (Also, `limit / mag_value` could
+        // itself be infinite here, which is not permitted in a constant expression.)
+        if (mag_value <= T{1}) {
+            return limit;
+        }
+
+        // To see whether `bound * mag_value` passes the limit without computing an infinite value,
+        // we compare at half scale (which changes neither operand's significand).
+        const T bound = limit / mag_value;
+        const T half_product = (bound * T{0.5}) * mag_value;
+        const T half_limit = limit * T{0.5};
+        const bool bound_is_unsafe =
+            (limit > T{0}) ? (half_product > half_limit) : (half_product < half_limit);
+        return bound_is_unsafe ? bound * (T{1} - std::numeric_limits<T>::epsilon()) : bound;
     }
 };
 
